@@ -190,6 +190,11 @@ func PrepareQuery(ctx context.Context, typ Type, selectionSet *SelectionSet) err
 				return err
 			}
 		}
+		// Selections that share a response key must be mergeable; find out now
+		// rather than while executing.
+		if _, err := Flatten(selectionSet); err != nil {
+			return err
+		}
 		return nil
 
 	case *List:
